@@ -337,6 +337,20 @@ func c11CheckBound(api *SimAPI, shape *c11Shape, pod *corev1.Pod, br *bindv1alph
 }
 
 func c11CheckUnboundClean(api *SimAPI, shape *c11Shape, pod *corev1.Pod, calls []BinderCall, fail func(string, string, ...any)) {
+	if shape.dra {
+		// the attempt's claim reservation must be gone (or removable by a sync) when the pod ends unbound: otherwise the
+		// claim pins the still pending pod to the node of the failed attempt
+		if c := api.Claim(ownClaimName(shape.pod, ClaimRef{Ref: "acc"})); c != nil {
+			for _, rf := range c.Status.ReservedFor {
+				if rf.UID == pod.UID {
+					fail("unbound_keeps_claim_reservation", "pod is unbound but its resource claim %s is still reserved for it (allocated: %v) after the failed attempt and a Sync", c.Name, c.Status.Allocation != nil)
+				}
+			}
+			if c.Status.Allocation != nil && !shape.draStale && len(c.Status.ReservedFor) == 0 {
+				fail("unbound_keeps_claim_allocation", "pod is unbound but its resource claim %s stays allocated by the failed attempt", c.Name)
+			}
+		}
+	}
 	// after one Sync: no reservation pod for a group nobody (bound) uses, unless the pod still carries
 	// the group label because removing that label was itself the failing call
 	labelled := map[string]bool{}
